@@ -205,11 +205,20 @@ func r16b(c *core.Ctx) {
 	}
 	// the udpWithFallback literal and its two transports
 	var lit *ssa.Alloc
-	core.EachInstr(fn, func(_ *ssa.BasicBlock, _ int, in ssa.Instruction) {
-		if al, ok := in.(*ssa.Alloc); ok && strings.HasSuffix(core.TypeName(al.Type()), "upstream.udpWithFallback") {
-			lit = al
+	// in NewUpstream, or in a constructor helper of the package that NewUpstream calls for the udp arm
+	for _, hf := range helperReach(fn, 1) {
+		if hf.Parent() != nil {
+			continue
 		}
-	})
+		core.EachInstr(hf, func(_ *ssa.BasicBlock, _ int, in ssa.Instruction) {
+			if al, ok := in.(*ssa.Alloc); ok && strings.HasSuffix(core.TypeName(al.Type()), "upstream.udpWithFallback") {
+				lit = al
+			}
+		})
+	}
+	if lit != nil {
+		fn = lit.Parent()
+	}
 	if lit == nil {
 		c.Bad("fallback-literal", fn.Pos(), fn, "the udp arm builds a udpWithFallback", "not found")
 		return
